@@ -75,6 +75,10 @@ class Check:
                 self.known_hit[key] = what
                 print("KNOWN-FINDING: property=%s key=%s %s" % (self.pid, key, what), flush=True)
             return False
+        prev = [x for x in self.violations if x["key"] == key]
+        if prev:  # one VIOLATION line per role key; further instances are kept in the same replay file's count
+            prev[0]["instances"] = prev[0].get("instances", 1) + 1
+            return True
         d = os.path.join(VERIF, "replay", self.pid)
         os.makedirs(d, exist_ok=True)
         path = os.path.join(d, "%s-%d.json" % (re.sub(r"[^A-Za-z0-9_.-]", "_", key)[:80], len(self.violations)))
